@@ -2,10 +2,12 @@ module verif/engine
 
 go 1.23
 
-require golang.org/x/tools v0.29.0
+require (
+	github.com/beevik/etree v1.5.0
+	golang.org/x/tools v0.29.0
+)
 
 require (
-	github.com/beevik/etree v1.5.0 // indirect
 	golang.org/x/mod v0.22.0 // indirect
 	golang.org/x/sync v0.10.0 // indirect
 )
